@@ -166,7 +166,6 @@ struct Gate {
 #[derive(Default)]
 struct FetchLog {
     gates: Vec<Gate>,
-    started: [usize; NPAIRS],
     /// distinct tokio task ids that invoked the fetcher, per pair (= workers that looked up)
     ids: [Vec<Option<tokio::task::Id>>; NPAIRS],
     polls: usize,
@@ -197,29 +196,28 @@ impl Shared {
             .filter(|g| g.pair == pair && matches!(g.state, GateState::Pending | GateState::Open(_)))
             .count()
     }
-    fn started(&self, pair: usize) -> usize {
-        self.log.lock().unwrap().started[pair]
-    }
     fn worker_ids(&self, pair: usize) -> usize {
         self.log.lock().unwrap().ids[pair].len()
     }
     fn n_gates(&self) -> usize {
         self.log.lock().unwrap().gates.len()
     }
-    fn open(&self, gate: usize, res: Res) -> usize {
+    fn gate_pair(&self, gate: usize) -> usize {
+        self.log.lock().unwrap().gates[gate].pair
+    }
+    fn open(&self, gate: usize, res: Res) {
         let w = {
             let mut l = self.log.lock().unwrap();
             let g = &mut l.gates[gate];
             if g.state != GateState::Pending {
-                return g.pair;
+                return;
             }
             g.state = GateState::Open(res);
-            (g.pair, g.waker.take())
+            g.waker.take()
         };
-        if let Some(wk) = w.1 {
+        if let Some(wk) = w {
             wk.wake();
         }
-        w.0
     }
 }
 
@@ -290,7 +288,6 @@ impl PathFetcher for Fetcher {
             debug_assert!(src == w.src);
             let id = {
                 let mut l = self.shared.log.lock().unwrap();
-                l.started[pair] += 1;
                 let tid = tokio::task::try_id();
                 if tid.is_none() || !l.ids[pair].contains(&tid) {
                     l.ids[pair].push(tid);
@@ -702,8 +699,9 @@ impl St<'_> {
                 let pend = self.shared.pending_gates();
                 if !pend.is_empty() {
                     let g = pend[idx(*i, pend.len())];
-                    let p = self.shared.open(g, *res);
-                    self.book.on_complete(p, g);
+                    // bookkeeping first: once the gate is open the worker may run (multi-thread tier)
+                    self.book.on_complete(self.shared.gate_pair(g), g);
+                    self.shared.open(g, *res);
                 }
             }
             Action::Run(n) => {
@@ -780,8 +778,8 @@ async fn run_st(case: &Case, obs: &mut Obs, shared: Arc<Shared>) -> CheckResult 
             // later rounds answer with an error so that continuously refetching configurations
             // come to rest in their failure backoff (>= 60 s, never reached)
             let res = if round == 0 { case.final_res } else { Res::Err };
-            let p = shared.open(g, res);
-            st.book.on_complete(p, g);
+            st.book.on_complete(shared.gate_pair(g), g);
+            shared.open(g, res);
         }
         st.settle().await?;
         st.book.check_at_most_one(&shared)?;
@@ -1070,7 +1068,7 @@ fn mt_spawn_waiter(mgr: &Mgr, p: usize, pre: u32, barrier: Option<Arc<AtomicUsiz
         if let Some(b) = barrier {
             b.fetch_sub(1, Ordering::SeqCst);
             let mut guard = 0u32;
-            while b.load(Ordering::SeqCst) > 0 && guard < 2_000_000 {
+            while b.load(Ordering::SeqCst) > 0 && guard < 200_000 {
                 std::hint::spin_loop();
                 guard += 1;
             }
@@ -1139,8 +1137,8 @@ async fn run_mt(case: &Case, obs: &mut Obs, shared: Arc<Shared>) -> CheckResult 
                 let pend = shared.pending_gates();
                 if !pend.is_empty() {
                     let g = pend[idx(*i, pend.len())];
-                    let p = shared.open(g, *res);
-                    book.on_complete(p, g);
+                    book.on_complete(shared.gate_pair(g), g);
+                    shared.open(g, *res);
                 }
             }
             Action::Run(n) => {
@@ -1180,8 +1178,8 @@ async fn run_mt(case: &Case, obs: &mut Obs, shared: Arc<Shared>) -> CheckResult 
         let pend = shared.pending_gates();
         for g in &pend {
             let res = if round == 0 { case.final_res } else { Res::Err };
-            let p = shared.open(*g, res);
-            book.on_complete(p, *g);
+            book.on_complete(shared.gate_pair(*g), *g);
+            shared.open(*g, res);
         }
         if !pend.is_empty() {
             round += 1;
@@ -1276,7 +1274,7 @@ fn mt_shaped_strategy() -> impl Strategy<Value = Case> {
         prop_oneof![Just(false), Just(true)],
         (0u8..2),
         (2u8..=6),
-        proptest::collection::vec(0u16..3000, 12),
+        proptest::collection::vec(prop_oneof![0u16..300, 0u16..3000, 0u16..30000], 12),
         res_strategy(),
         0u8..3,
     )
@@ -1285,7 +1283,16 @@ fn mt_shaped_strategy() -> impl Strategy<Value = Case> {
                 // N first requests released together
                 0 => vec![Action::Burst(p, k), Action::Run(1), Action::Complete(0, res)],
                 // a waiter registers exactly while the first lookup completes
-                1 => vec![Action::New(p), Action::Settle, Action::Complete(0, res), Action::New(p), Action::New(p)],
+                1 => vec![
+                    Action::New(p),
+                    Action::Settle,
+                    Action::Complete(0, res),
+                    Action::New(p),
+                    Action::New(p),
+                    Action::New(p),
+                    Action::New(p),
+                    Action::New(p),
+                ],
                 // completion, stop and new waiters together
                 _ => vec![Action::New(p), Action::Settle, Action::Complete(0, res), Action::Stop(p), Action::Burst(p, k)],
             };
